@@ -74,6 +74,25 @@ var claimsReadOps = []readOp{
 		v, e := psatoken.ValidateAndEncodeClaimsToJSON(cl)
 		return fmt.Sprintf("%s/%s", v, resErr(e))
 	}},
+	// printing is reading: the claims-set, and the component container it holds, through every verb a log line uses
+	// (the text contains addresses, so the result recorded is only that it returned)
+	{"fmt.Sprintf(%v %+v %s %#v)", func(cl psatoken.IClaims) string {
+		_ = fmt.Sprintf("%v|%+v|%s|%#v", cl, cl, cl, cl)
+		switch t := cl.(type) {
+		case *psatoken.P1Claims:
+			_ = fmt.Sprintf("%v|%+v|%s", t.SwComponents, t.SwComponents, t.SwComponents)
+			_ = fmt.Sprint(*t)
+		case *psatoken.P2Claims:
+			_ = fmt.Sprintf("%v|%+v|%s", t.SwComponents, t.SwComponents, t.SwComponents)
+			_ = fmt.Sprint(*t)
+		}
+		if scs, err := cl.GetSoftwareComponents(); err == nil {
+			for _, sc := range scs {
+				_ = fmt.Sprintf("%v|%s", sc, sc)
+			}
+		}
+		return "printed"
+	}},
 }
 
 type evReadOp struct {
@@ -107,6 +126,11 @@ func evidenceReadOps() []evReadOp {
 			return fmt.Sprintf("%x", *p)
 		}},
 	}
+	ops = append(ops, evReadOp{"fmt.Sprintf(%v %+v %s)", func(ev *psatoken.Evidence) string {
+		_ = fmt.Sprintf("%v|%+v|%s", ev, ev, ev)
+		_ = fmt.Sprint(*ev)
+		return "printed"
+	}})
 	for _, co := range claimsReadOps {
 		co := co
 		ops = append(ops, evReadOp{"Claims." + co.name, func(ev *psatoken.Evidence) string { return co.run(ev.Claims) }})
